@@ -138,7 +138,7 @@ def run_shard(ctx):
     def test(case):
         check_case(ctx, case)
 
-    runner.drive(ctx, test, ctx.n(3200, 60000))
+    runner.drive(ctx, test, ctx.n(9600, 120000))
 
 
 def replay(ctx, case):
